@@ -318,7 +318,7 @@ PROPS = {
         "assumptions": ["limits are usize values (L <= 2^64-1)"],
     },
     "C08": {
-        "streams": ["stacks"],
+        "streams": ["stacks", "big"],
         "rule": "for every catalogue type, on exact, suffixed, mutated and truncated encodings: the same bytes decoded through 12 input stacks - &[u8], IoReader<Cursor>, IoReader over a reader delivering 1..3 bytes per call, a custom Input with remaining_len = None, decode_from_bytes (shared buffer incl. zero-copy path), CountedInput / MemTrackingInput(usize::MAX) / depth-limit(u32::MAX) alone and nested three deep in different orders over slice, unknown-length and short-read inputs; oracle on the implementation: every stack gives the slice's outcome (ok value + bytes consumed | err); the slice, IoReader and BytesCursor outcomes are also compared with the model's three input instances. non-trivial = distinct request whose model answer is not `err`",
         "level_text": "Proved in Lean (lax simulation theorem over all decoder programs): over ANY input that delivers the bytes faithfully - whatever it reports as remaining length and wherever it stands after a failed read - every decoder returns what it returns over the slice: same success/failure and value, and on success the same bytes consumed. Instances proved faithful: the slice, the unknown-length read_exact reader (IoReader / short-chunk readers / custom None-length inputs), the BytesCursor incl. its zero-copy scale_internal_decode_bytes override, and CountedInput over any faithful input. Depth- and memory-limit wrappers over ANY input are proved transparent (same result and wrapped-input state) whenever their limit is non-binding (>= needed depth / > tracked usage) and never to turn a failure into a success; so wrappers stack in any order. The only decoder branch that consults remaining_len (read_vec_from_u8s) is shown to reject early exactly when the chunked reads would reject later. Tied to the crate by the stacks stream.",
         "level_note": "Trusted: as C01; std::io::Read::read_exact and bytes::Bytes (advance/split_to) are modelled by contract (all-or-nothing delivery). After a FAILED decode the position of a non-slice input is unspecified and not compared. Inputs longer than usize::MAX bytes are excluded (`bounded`).",
